@@ -312,7 +312,8 @@ fn run_sink_scenario(out: &mut Out, scn: &Value, tag: usize) {
     let format: ResponseOutputFormat = if fmt == "json" {
         serde_json::from_value(json!({"type": "json", "newline_delimited": true})).unwrap()
     } else {
-        serde_json::from_value(json!({"type": "csv", "sorted": scn["sorted"], "mapping": {"Rid": "rid", "len": "len", "Pad": "pad", "grp": "grp"}})).unwrap()   // column names of mixed case: header and rows must still agree
+        serde_json::from_value(json!({"type": "csv", "sorted": scn["sorted"], "mapping": {"Rid": "rid", "len": "len", "Pad": "pad", "grp": "grp",
+            "Tot": {"sum": ["rid", {"optional": "len"}, "grp", {"optional": {"sum": ["len", "len"]}}]}}})).unwrap()   // column names of mixed case: header and rows must still agree
     };
     let policy = ResponseOutputPolicy::File {
         filename: path.to_str().unwrap().to_string(),
@@ -442,7 +443,11 @@ fn run_sink_scenario(out: &mut Out, scn: &Value, tag: usize) {
                 let want_len = plan.iter().flatten().find(|(r, _)| *r == rid).map(|(_, l)| *l).unwrap_or(usize::MAX);
                 let len_cell_ok = get("len").is_empty() || get("len").parse::<usize>().ok() == Some(want_len);
                 let grp_ok = if rid % 5 == 0 { get("grp") == "null" } else { get("grp").parse::<i64>().ok() == Some(rid * 2) };
-                (rid, cells.len() == cols.len() && len_cell_ok && grp_ok && get("Pad").len() == want_len && get("Pad").bytes().all(|b| b == b'x'))
+                // a sum over members that may be absent (optional) or null: those count as zero
+                let has_len = !get("len").is_empty();
+                let want_tot = rid as f64 + if has_len { 3.0 * want_len as f64 } else { 0.0 } + if rid % 5 == 0 { 0.0 } else { (rid * 2) as f64 };
+                let tot_ok = get("Tot").parse::<f64>().ok() == Some(want_tot);
+                (rid, cells.len() == cols.len() && len_cell_ok && grp_ok && tot_ok && get("Pad").len() == want_len && get("Pad").bytes().all(|b| b == b'x'))
             };
             out.event(json!({"ev": "FileLine", "rid": rid, "intact": intact}));
         }
